@@ -16,7 +16,48 @@ import (
 
 const maxInlineDepth = 6
 
+// call executes one call instruction and remembers its results for lastresult(Name, k).
 func (fr *Frame) call(instr ssa.Instruction, cc *ssa.CallCommon, st *State, reach string) Val {
+	r := fr.call0(instr, cc, st, reach)
+	if _, isBuiltin := cc.Value.(*ssa.Builtin); !isBuiltin {
+		pos := instr.Pos()
+		fr.noteResult(fr.callName(cc, pos), r, st)
+		fr.noteResult(fr.callQualName(pos), r, st)
+	}
+	return r
+}
+
+// noteResult: ghost lastres.<name>.<k> holds result k of the most recent call named name.
+func (fr *Frame) noteResult(name string, r Val, st *State) {
+	c := fr.c
+	if name == "" || name == "?" {
+		return
+	}
+	comps := []Val{r}
+	if r.Tuple != nil {
+		comps = r.Tuple
+	}
+	for k, v := range comps {
+		g := fmt.Sprintf("lastres.%d.%d", callNameID(name), k)
+		if v.Term == "" || v.T == nil {
+			delete(st.ghost, g)
+			continue
+		}
+		if _, isTuple := v.T.(*types.Tuple); isTuple {
+			continue
+		}
+		srt := c.sortOf(v.T)
+		if old, ok := c.ghostSorts[g]; ok && old != srt {
+			delete(st.ghost, g)
+			continue
+		}
+		c.ghostSorts[g] = srt
+		c.ghostTypes[g] = v.T
+		st.ghost[g] = v.Term
+	}
+}
+
+func (fr *Frame) call0(instr ssa.Instruction, cc *ssa.CallCommon, st *State, reach string) Val {
 	c := fr.c
 	_ = c
 	var resT types.Type
@@ -156,12 +197,19 @@ func (fr *Frame) callWithContract(callee *ssa.Function, ct *Contract, fv *FnVal,
 	env2.results = results
 	env2.parentEntry = env.parentEntry
 	for _, cl := range ct.clauses("ensures") {
-		t, err := env2.evalBool(cl.Expr)
-		if err != nil {
-			fr.bindFailure(cl, err)
-			continue
+		for _, cj := range conjuncts(cl.Expr) {
+			if mentionsInternals(cj) {
+				continue // about the callee's own locals / call results: proved there, of no use to a caller
+			}
+			t, err := env2.evalBool(cj)
+			if err != nil {
+				if !mentionsCall(cj, "final") { // final(x) of a callee local means nothing here
+					fr.bindFailure(cl, err)
+				}
+				continue
+			}
+			c.smt.assume(implies(reach, t), "ensures of "+shortFn(callee)+": "+cl.Text)
 		}
-		c.smt.assume(implies(reach, t), "ensures of "+shortFn(callee)+": "+cl.Text)
 	}
 	return results
 }
@@ -864,12 +912,17 @@ func (fr *Frame) invokeWithContract(cc *ssa.CallCommon, ct *Contract, recv Val, 
 	env2.old = old
 	env2.results = results
 	for _, cl := range ct.clauses("ensures") {
-		t, err := env2.evalBool(cl.Expr)
-		if err != nil {
-			fr.bindFailure(cl, err)
-			continue
+		for _, cj := range conjuncts(cl.Expr) {
+			if mentionsInternals(cj) {
+				continue
+			}
+			t, err := env2.evalBool(cj)
+			if err != nil {
+				fr.bindFailure(cl, err)
+				continue
+			}
+			c.smt.assume(implies(reach, t), "assumed ensures of "+name+": "+cl.Text)
 		}
-		c.smt.assume(implies(reach, t), "assumed ensures of "+name+": "+cl.Text)
 	}
 	return packResults(resT, results)
 }
@@ -984,13 +1037,17 @@ func (fr *Frame) callsiteChecks(cc *ssa.CallCommon, args []Val, st *State, reach
 	}
 	var name string
 	var sig *types.Signature
+	var recvArg *Val
 	if cc.IsInvoke() {
 		name = cc.Method.Name()
 		sig = cc.Method.Type().(*types.Signature)
+		rv := fr.val(cc.Value, st)
+		recvArg = &rv
 	} else if f := cc.StaticCallee(); f != nil {
 		name = f.Name()
 		sig = f.Signature
 		if sig.Recv() != nil && len(args) > 0 {
+			recvArg = &args[0]
 			args = args[1:]
 		}
 	} else if _, isBuiltin := cc.Value.(*ssa.Builtin); !isBuiltin {
@@ -1031,10 +1088,17 @@ func (fr *Frame) callsiteChecks(cc *ssa.CallCommon, args []Val, st *State, reach
 			}
 			env.names[fmt.Sprintf("arg%d", i)] = args[i]
 		}
+		if recvArg != nil {
+			env.names["receiver"] = *recvArg
+		}
 		for _, cj := range conjuncts(cl.Expr) {
 			t, err := env.evalBool(cj)
 			if err != nil {
 				fr.bindFailure(cl, err)
+				continue
+			}
+			if cl.Assumed {
+				fr.c.smt.assume(implies(reach, t), "callsite assumes (dependency behaviour): "+cl.Text)
 				continue
 			}
 			fr.oblige("callsite", name+" requires "+cj.String(), reach, t, pos)
@@ -1162,4 +1226,41 @@ func (fr *Frame) goOrdinal(x *ssa.Go) int {
 		}
 	}
 	return k
+}
+
+// mentionsInternals: the expression talks about the function's own locals or the results of calls it made
+// (local(x), lastresult(N, k)); such a postcondition is checked in the function and skipped at its call sites.
+func mentionsInternals(e *CExpr) bool {
+	if e == nil {
+		return false
+	}
+	if e.Op == "call" && (e.Name == "lastresult" || e.Name == "local") {
+		return true
+	}
+	for _, a := range e.Args {
+		if mentionsInternals(a) {
+			return true
+		}
+	}
+	for _, a := range e.Trig {
+		if mentionsInternals(a) {
+			return true
+		}
+	}
+	return false
+}
+
+func mentionsCall(e *CExpr, name string) bool {
+	if e == nil {
+		return false
+	}
+	if e.Op == "call" && e.Name == name {
+		return true
+	}
+	for _, a := range e.Args {
+		if mentionsCall(a, name) {
+			return true
+		}
+	}
+	return false
 }
